@@ -268,6 +268,7 @@ def _gen_body(rng, m, callees, o):
             decl = decl + pd
             rng.shuffle(decl)
     m["decl_order"] = decl
+    m["group_decls"] = rng.random() < 0.4
     nets = _nets_of(m)
     implicit = []
     inames = set()
@@ -279,6 +280,7 @@ def _gen_body(rng, m, callees, o):
             pu = set()
             for _ in range(rng.randint(1, 2)):
                 inst["params"].append([fresh_name(rng, pu, "K", 0.0), gen_value(rng)])
+            inst["defparam"] = rng.random() < 0.3
         if c["kind"] == "blackbox":
             pn = list(c["pnames"])
             rng.shuffle(pn)
@@ -437,6 +439,21 @@ def w_decl_range(L, m, name, msb, lsb):
         w_range(L, msb, lsb)
 
 
+def _same_decl(m, a, b):
+    if a[0] != b[0]:
+        return False
+    if a[0] == "wire":
+        x, y = m["wires"][a[1]], m["wires"][b[1]]
+        # attributes reach only the first name in the reader; the engine's writer groups attribute-free nets only
+        return (x["type"], x["ranged"], x["msb"], x["lsb"]) == (y["type"], y["ranged"], y["msb"], y["lsb"]) \
+            and not x["attrs"] and not y["attrs"] and (x["name"] in m.get("asc", ())) == (y["name"] in m.get("asc", ()))
+    if a[0] == "port":
+        x, y = m["ports"][a[1]], m["ports"][b[1]]
+        return (x["dir"], x["vtype"], x["ranged"], x["w"], x.get("lsb", 0)) == (y["dir"], y["vtype"], y["ranged"], y["w"], y.get("lsb", 0)) \
+            and (x["name"] in m.get("asc", ())) == (y["name"] in m.get("asc", ()))
+    return m["ports"][a[1]]["dir"] == m["ports"][b[1]]["dir"]
+
+
 def w_module(L, m):
     w_attrs(L, m["attrs"])
     L.kw("module"); L.name(m["name"])
@@ -473,14 +490,29 @@ def w_module(L, m):
         else:
             L.name(p["name"])
     L.p(")"); L.p(";")
-    for d in m["decl_order"]:
+    order = m["decl_order"]
+    i = 0
+    while i < len(order):
+        d = order[i]
+        group = [d]
+        if m.get("group_decls"):
+            # `wire [3:0] a, b;` / `input a, b;`: following declarations of the same kind, type and range
+            j = i + 1
+            while j < len(order) and _same_decl(m, d, order[j]):
+                group.append(order[j])
+                j += 1
+        i += len(group)
         if d[0] == "wire":
             w = m["wires"][d[1]]
             w_attrs(L, w["attrs"])
             L.kw(w["type"])
             if w["ranged"]:
                 w_decl_range(L, m, w["name"], w["msb"], w["lsb"])
-            L.name(w["name"]); L.p(";")
+            for k, g in enumerate(group):
+                if k:
+                    L.p(",")
+                L.name(m["wires"][g[1]]["name"])
+            L.p(";")
         elif d[0] == "port":
             p = m["ports"][d[1]]
             L.kw(p["dir"])
@@ -488,10 +520,19 @@ def w_module(L, m):
                 L.kw(p["vtype"])
             if p["ranged"]:
                 w_decl_range(L, m, p["name"], p.get("lsb", 0) + p["w"] - 1, p.get("lsb", 0))
-            L.name(p["name"]); L.p(";")
+            for k, g in enumerate(group):
+                if k:
+                    L.p(",")
+                L.name(m["ports"][g[1]]["name"])
+            L.p(";")
         else:
             p = m["ports"][d[1]]
-            L.kw(p["dir"]); L.name(p["alias"][d[2]]); L.p(";")
+            L.kw(p["dir"])
+            for k, g in enumerate(group):
+                if k:
+                    L.p(",")
+                L.name(m["ports"][g[1]]["alias"][g[2]])
+            L.p(";")
     if m["kind"] == "prim" and m["junk"]:
         L.sp(must=True)
         L.out.append(" " + m["junk"] + " ")
@@ -502,7 +543,7 @@ def w_module(L, m):
         else:
             w_attrs(L, it["attrs"])
             L.name(it["mod"])
-            if it["params"]:
+            if it["params"] and not it.get("defparam"):
                 L.p("#"); L.p("(")
                 for i, (k, v) in enumerate(it["params"]):
                     if i:
@@ -518,6 +559,9 @@ def w_module(L, m):
                 else:
                     w_expr(L, e)
             L.p(")"); L.p(";")
+            if it["params"] and it.get("defparam"):
+                for k, v in it["params"]:
+                    L.kw("defparam"); L.name(it["name"]); L.p("."); L.name(k); L.p("="); L.tok(v, True); L.p(";")
     L.kw("endmodule")
     L._last_word = False
 
